@@ -83,6 +83,13 @@ mod env_util {
     }
 }
 
+/// The private path expansion, unchanged.
+#[cfg(all(log4rs_verif, any(feature = "file_appender", feature = "rolling_file_appender")))]
+#[doc(hidden)]
+pub fn verif_expand_env_vars(path: &str) -> String {
+    env_util::expand_env_vars(path).into_owned()
+}
+
 /// A trait implemented by log4rs appenders.
 ///
 /// Appenders take a log record and processes them, for example, by writing it
